@@ -196,7 +196,7 @@ pub fn do_case(out: &mut Out, chunks: &[Vec<u8>], info: &StreamInfo) {
 // ---- generators --------------------------------------------------------------------------------
 
 fn gen_body(rng: &mut Rng, n: usize, out: &mut Out) -> Vec<u8> {
-    let mode = rng.below(8);
+    let mode = rng.below(10);
     let mut b = rng.bytes(n);
     match mode {
         0 => out.stat("body:random"),
@@ -245,6 +245,27 @@ fn gen_body(rng: &mut Rng, n: usize, out: &mut Out) -> Vec<u8> {
                 }
             }
             out.stat("body:lookalike");
+        }
+        8 | 9 => {
+            // constant regions: a content filter ("heartbeat", "empty reply") keys on these, not on framing.
+            // Regions: time stamp (0..6), signal byte (6), payload (7..n); each zero / 0xFF / one repeated byte.
+            let fill = |rng: &mut Rng| *rng.pick(&[0x00u8, 0x00, 0xFF, 0x01, 0x80, 0x20]);
+            let v = fill(rng);
+            match rng.below(5) {
+                0 => b[7..].iter_mut().for_each(|x| *x = v),
+                1 => b.iter_mut().for_each(|x| *x = v),
+                2 => b[..6].iter_mut().for_each(|x| *x = v),
+                3 => {
+                    b[..7].iter_mut().for_each(|x| *x = v);
+                    let w = fill(rng);
+                    b[7..].iter_mut().for_each(|x| *x = w);
+                }
+                _ => {
+                    b[6] = v;
+                    b[7..].iter_mut().for_each(|x| *x = 0);
+                }
+            }
+            out.stat("body:const-region");
         }
         _ => {
             for x in b.iter_mut() {
